@@ -518,6 +518,9 @@ def produce(fa, req):
     res["proj"] = proj
     if any(p["t"] == "list" for p in proj["params"]) or any(n["k"] in ("list", "item", "len") or n["t"].startswith("list") for n in proj["nodes"]):
         return dict(req=req, status="build_skip", why="list-valued program")
+    # (classification aid) arguments whose reference name differs from their own name: an expression named by .reference()
+    # that the rewriter reduced to the argument
+    res["renamed_args"] = sorted({str(a.ref) for a in g.operands[1:-1] if a.kind == "symbol" and a.ref != str(a.operands[0])})
     res["wild"] = wild_of(fa, tname)
     prog = parse_stablehlo(text) if tname == "stablehlo" else parse_xla(text)
     res["prog"] = dict(params=prog["params"], stmts=prog["stmts"], rows=prog["rows"], ret=prog["ret"])
@@ -658,7 +661,8 @@ def static_keys(r, triples):
             detail = "variable " + ("constant_<value>" if w.startswith("constant_") else
                                     "named in both constant contexts" if w in r["proj"].get("shared_refs", ()) else "other")
         elif clause == "def_before_use":
-            detail = what if what in NAMED_WORDS else ("constant without an operand (free symbol)" if what in free else
+            detail = what if what in NAMED_WORDS else ("argument renamed in the body only" if what in r.get("renamed_args", ()) else
+                                                       "constant without an operand (free symbol)" if (what in free or (free and row in likes)) else
                                                        "var" if row not in likes else "operand a constant is attached to")
         elif clause in ("single_assignment", "declared_type"):
             detail = "param" if what in [p["name"] for p in r["prog"]["params"]] else ("return" if what == "return" else "var")
